@@ -214,7 +214,7 @@ func main() {
 		}
 	}()
 	if r.Fork(16) {
-		r.Set("rule", "patterns: every string up to the length bound over "+string(sigma)+", \\x escapes at the extremes alone/in brackets/in ranges/negated, every Unicode category inside and outside brackets; specifications: every token sequence up to the length bound over the 22 kinds, every byte string up to the length bound over 19 bytes (incl. NUL and invalid UTF-8), every prefix and every single-byte deletion of three whole specifications and of the repository fixtures; command lines: every argument list up to the length bound over 16 arguments run against the real binary; non-trivial = every input (distinct by text)")
+		r.Set("rule", "patterns: every string up to the length bound over "+string(sigma)+", \\x escapes at the extremes alone/in brackets/in ranges/negated, every Unicode category inside and outside brackets, 9 special characters inserted at / substituted for every position of 15 constructs and every construct cut off at every position; specifications: every token sequence up to the length bound over the 22 kinds, every byte string up to the length bound over 19 bytes (incl. NUL and invalid UTF-8), every prefix and every single-byte deletion of three whole specifications and of the repository fixtures; command lines: every argument list up to the length bound over 16 arguments run against the real binary; non-trivial = every input (distinct by text)")
 		r.Set("evaluations", r.Get("patterns")+r.Get("spec_texts")+r.Get("command_lines"))
 		r.Finish()
 	}
@@ -281,6 +281,26 @@ func main() {
 		if mine() {
 			checkPattern(r, p)
 			r.Distinct("p:" + p)
+		}
+	}
+	// every special character (DEL, C1, non-ASCII of 2-4 bytes, an invalid byte, NUL, a control character) inserted at and
+	// substituted for every position of every kind of construct, and every construct cut off at every position
+	templates := []string{`\p{Lu}`, `\P{Greek}x`, `[a-z]`, `[^a-z0]`, `a{1,2}`, `a{2,}`, `\x41`, `\x0041b`, `[[:alpha:]]x`, `(a|b)*`, `a+?`, `\.`, `[\]]`, `^ab$`, `[a\p{L}-z]`}
+	specialsP := []string{"\x7f", "\u0080", "é", "中", "😀", "\xff", "\x00", "\x1b", "\ufffd"}
+	for _, tp := range templates {
+		rs := []rune(tp)
+		for i := 0; i <= len(rs); i++ {
+			if mine() {
+				checkPattern(r, string(rs[:i])) // cut off
+			}
+			for _, sp := range specialsP {
+				if mine() {
+					checkPattern(r, string(rs[:i])+sp+string(rs[i:]))
+				}
+				if i < len(rs) && mine() {
+					checkPattern(r, string(rs[:i])+sp+string(rs[i+1:]))
+				}
+			}
 		}
 	}
 	// ---- specifications: token sequences
